@@ -108,7 +108,8 @@ fn io_parse_indices_forms() {
 // on single concrete inputs (kind B, never counted as proved), chosen to exercise the deferred bounds check, the index forms,
 // the layout clauses and the faithful reproduction of the face list.
 // Tried and dropped (one step up from concrete): "v 0 0 0 / v 1 0 0 / v 0 1 0 / f 1 2 X" with ONE symbolic byte X, asserting
-// Ok iff X in '1'..'3' and then face [0, 1, X - '1']: no verdict in 60 min.  The unwinding bounds below are the smallest that
+// Ok iff X in '1'..'3' and then face [0, 1, X - '1']: no verdict in 60 min.  Retried with the smallest text and bound ("v 0 0 0 / f 1 1 X",
+// unwinding 12): X over all 256 bytes -- no verdict in 50 min; X over the ten digits only -- no verdict in 40 min.  The unwinding bounds below are the smallest that
 // cover each text (longest line + 2): under a mutation that makes a loop bound non-constant for CBMC (e.g. a filter() before
 // Mesh::new's collect()) the cost grows with the unwinding bound, and with 40 the seeded change C14c ended undecided.
 
